@@ -51,7 +51,7 @@ def schema_stub(self):
 def get_state_always_resumes():
     """Gateway.get_state: on every exit -- return or an exception from anything it reads -- the
     engine has been resumed exactly as often as it was paused."""
-    gwy = new_object(G.Gateway, devices=[FakeDevice("a"), FakeDevice("b")], systems=[], _zzz=None, _ghost_paused=0, _ghost_resumed=0)
+    gwy = new_object(G.Gateway, devices=[FakeDevice("a"), FakeDevice("b")], _zzz=None, _ghost_paused=0, _ghost_resumed=0)
     o = outcome(gwy.get_state, sym_bool("include_expired"))
     check(gwy._ghost_paused == 1, "get_state pauses the engine once")
     check(gwy._ghost_resumed == gwy._ghost_paused, "the engine is resumed on every exit of get_state")
